@@ -29,6 +29,8 @@ def draw_knobs(rng, cfg):
     k["deep_rate"] = rng.choice([0.0, 0.15, 0.5])
     k["variant_rate"] = rng.choice([0.0, 0.1, 0.25])
     k["container_rate"] = rng.choice([0.0, 0.0, 0.03, 0.06])
+    if cfg.get("force"):
+        k.update(cfg["force"])
     k["repeat_rate"] = rng.choice([0.0, 0.05, 0.15])
     return k
 
